@@ -296,7 +296,7 @@ Section Split.
 
   Lemma urlsplit_built : urlsplit v6ok u = SOk sch netloc P q [].
   Proof.
-    unfold urlsplit.
+    unfold urlsplit, urlsplit_with.
     destruct sch_head as [c0 [t [Es Hc0]]].
     (* lstrip: the first character is a letter *)
     assert (drop_while c0_or_space u = u) as ->.
@@ -307,6 +307,7 @@ Section Split.
     (* the scheme *)
     assert (split_scheme u = (sch, 47 :: 47 :: netloc ++ P ++ Q)) as ->.
     { unfold u, s_css. cbn [app]. apply split_scheme_lower; assumption. }
+    assert (is_empty sch = false) as -> by (rewrite Es; reflexivity).
     (* the network location: up to the first of "/?#" *)
     rewrite span_until_app; [| |exact PQ_head].
     2:{ revert Hnet. apply forallb_impl. intros x. unfold netloc_char. lia. }
